@@ -13,6 +13,7 @@ Definition kind_of_code (c : nat) : nkind unit :=
   match c with
   | 0 => KImport tt
   | 1 => KStrExpr
+  | 3 => KBytesExpr
   | _ => KOther
   end.
 
